@@ -489,6 +489,17 @@ IMPURE = {"path", "model-check/replay", "plugin/dvfs/sampling-rate", "model-chec
 PURE = set(PLAIN) - IMPURE
 
 
+# the driver's own test flags (drivers/config_driver.cpp): callbacks that count, refuse by THROWING, and a bound variable
+VF_FLAGS = {
+    "vf/int-even": lambda v: v % 2 == 0,
+    "vf/int-range": lambda v: -100 <= v <= 100,
+    "vf/double-pos": lambda v: v >= 0,
+    "vf/bool": lambda v: True,
+    "vf/string-abc": lambda v: v in ("a", "b", "c"),
+}
+PURE |= set(VF_FLAGS)          # a refused value is an exception, never an abort: such cases can run without a fork
+
+
 def module_values(desc):
     """'... Possible values (other compilation flags may activate more plugins): a, b, c.\\n (use 'help' ...' -> [a, b, c]"""
     m = re.search(r"Possible values \([^)]*\): (.*?)\.\n", desc + "\n", re.S)
@@ -499,7 +510,10 @@ def module_values(desc):
 
 def validate(name, value, replay_active, item, default=None):
     """What the item's validation must do with a value that was parsed fine (value: python int/float/bool/str).
-    -> 'ok' (stored) | 'reject' (exception or abort with a message) | 'open' | 'exit0' (prints help and exits)."""
+    -> 'ok' (stored) | 'reject' (exception or abort with a message) | 'reject-exc' (refused by an exception: the process goes on)
+    | 'open' | 'exit0' (prints help and exits)."""
+    if name in VF_FLAGS:
+        return "ok" if VF_FLAGS[name](value) else "reject-exc"
     if name in MC_GATED and not replay_active:
         return "reject"
     if name in INT_RANGES:
@@ -530,15 +544,15 @@ def validate(name, value, replay_active, item, default=None):
         if all(re.fullmatch(r"[0-9a-fA-F]{1,8}", t) for t in toks):
             return "ok"
         if any(re.match(r"[g-zG-Z_]", t) or t == "" for t in toks):
-            return "reject"
+            return "reject-exc"      # std::stoul throws, rethrown as a std::string
         return "open"
     if name == "smpi/host-speed":
         if value == "auto":
             return "open"
         v = classify("speed", value)
         if v.kind == "accept":
-            return "ok" if v.value > 0 else "reject"
-        return "reject" if v.kind == "reject" else "open"
+            return "ok" if v.value > 0 else "reject"          # xbt_assert(speed > 0): abort
+        return "reject-exc" if v.kind == "reject" else "open"   # ParseError thrown by xbt_parse_get_speed
     if name == "smpi/comp-adjustment-file":
         if value == "":
             return "ok"
